@@ -35,11 +35,40 @@ def cases(tier, seed):
         c = evo.gen_history(core.run_seed(seed, PROP + "-fresh", i), max_edits=4)
         c["fresh_interpreters"] = True
         out.append(c)
+    out.extend(crafted_cases())
+    return out
+
+
+def _node(i, name, kind="memento", explicit=None, calls=()):
+    return {"id": i, "name": name, "module": 0, "kind": kind, "explicit": explicit, "salt": None, "const": 1, "nested": None,
+            "setc": None, "tup": None, "fstr": None, "posdef": None, "kwdef": None, "globals": [], "calls": [{"to": j, "form": "bare"} for j in calls],
+            "recur": False, "nestkind": "lambda", "deco": None, "fparams": [], "builtin": None}
+
+
+def crafted_cases():
+    """Hand-written histories for version-string shapes the generator does not draw."""
+    from sim import progen
+    out = []
+    # two explicitly versioned dependencies whose version strings are re-split: ("1", "23") -> ("12", "3"), both edited
+    for delivery in ("restart", "inproc-def"):
+        prog = {"modules": ["m0"], "pkg": [0], "globals": [], "order": {}, "bshadow": {},
+                "nodes": [_node(0, "f0", calls=(1, 2)), _node(1, "f1", explicit="1"), _node(2, "f2", explicit="23")]}
+        prog["order"]["0"] = progen.default_order(prog, 0)
+        steps = [{"op": "call", "node": 0, "x": 1, "via": "plain", "twice": False},
+                 {"op": "edit", "edit": {"kind": "set_explicit", "node": 1, "value": "12", "const": 5}, "delivery": delivery, "n": 2},
+                 {"op": "edit", "edit": {"kind": "set_explicit", "node": 2, "value": "3", "const": 6}, "delivery": delivery, "n": 3},
+                 {"op": "call", "node": 0, "x": 1, "via": "plain", "twice": False}]
+        out.append({"seed": 424200 + len(out), "prog": prog, "steps": steps, "cache": False,
+                    "crafted": "explicit-version-digest-collision"})
     return out
 
 
 def execute(case):
     viol, log, stats = evo.execute_history(case, {"c01"})
+    if case.get("crafted"):
+        stats["crafted_histories"] = 1
+        for v in viol:
+            v["features"]["crafted"] = case["crafted"]
     if case.get("fresh_interpreters"):
         stats["fresh_interpreter_histories"] = 1
     dg = core.digest_of(log)
